@@ -126,3 +126,40 @@ func H_C02_meta() {
 	vAssert(*sm2 == *sm, "C02.meta.seg.fields")
 	vCover("C02.meta.done")
 }
+
+// H_C02_xfs: a directory written and cleanly closed through the plain OS file
+// system reopens identically through the memory-mapped one and vice versa
+// (both over the kernel model), without recovery.
+func H_C02_xfs() {
+	n := 2
+	vlen := 2
+	rec := 10 + 8 + vlen
+	fss := []fs.FileSystem{fs.OS, fs.OSMMap}
+	first := vCase() % 2
+	dir := "c02x"
+	r := newRef(n, 8)
+	var db *DB
+	var err error
+	for sess := 0; sess < 3; sess++ {
+		fsys := fss[(first+sess)%2]
+		efs := &errFS{inner: fsys}
+		db, err = Open(dir, smallOpts(efs, 2, rec))
+		vAssert(err == nil, "C02x.open")
+		if err != nil {
+			return
+		}
+		vAssert(efs.renames == 0, "C02x.no-recovery")
+		checkReads(db, r, "C02x.contents")
+		if sess > 0 {
+			checkItems(db, r, "C02x.contents")
+			vCover("C02x.reopened-through-the-other-file-system")
+		}
+		for step := 0; step < 1; step++ {
+			code := vChoice("op", 2*n+1)
+			op, k := decodeOp(code, n)
+			applyOp(db, r, op, k, vlen, "C02x.step")
+		}
+		vAssert(db.Close() == nil, "C02x.close")
+	}
+	vCover("C02x.done")
+}
